@@ -12,7 +12,7 @@ import itertools
 
 from .. import qast as Q
 from ..common import (X, leaves_single, REPRESENTATIVE_4, REPRESENTATIVE_8, to_fn_form, root_kind, grid_world,
-                      eval_entity, diff_lists, labels, is_exc)
+                      eval_entity, eval_entity_after_partial, diff_lists, labels, is_exc)
 from ..isolate import run_isolated
 from ..space import trees_by_depth
 from ..worlds import build_world
@@ -88,10 +88,19 @@ def run_case(case, inst):
         world = build_world(WSPEC, inst)
         got = eval_entity(q, world, inst, share_terms=(case[2] == "shared"))
         exp = [env["x"] for env in Q.Ref(world, inst).solutions(q)]
-        return got, exp, len(world["D"])
+        # built afresh on a fresh world: a FIRST evaluation closed after two results, then evaluated fully, twice
+        world2 = build_world(WSPEC, inst)
+        later = eval_entity_after_partial(q, world2, inst, share_terms=(case[2] == "shared"))
+        exp2 = [env["x"] for env in Q.Ref(world2, inst).solutions(q)]
+        return got, exp, len(world["D"]), later, exp2
 
-    got, exp, n = run_isolated(body)
+    got, exp, n, later, exp2 = run_isolated(body)
     d = diff_lists(got, exp, ordered=True)
+    if d is None:
+        for name, g in zip(("after-abandoned-evaluation", "after-abandoned-evaluation-again"), later):
+            if g is not None and diff_lists(g, exp2, ordered=True) is not None:
+                d, got, exp = f"{name}:{diff_lists(g, exp2, ordered=True)}", g, exp2
+                break
     res = {"ok": d is None, "nontrivial": 0 < len(exp) < n, "transitions": 1 + (0 if is_exc(got) else len(got)),
            "tags": [f"root={root_kind(tree)}", f"form={case[2]}", f"decl={case[1]}"]
                    + (["has_not"] if Q.has_kind(tree, ("not", "inv")) else [])
@@ -104,4 +113,6 @@ def run_case(case, inst):
 
 def describe(case, inst):
     return (Q.up_world(WSPEC, inst) + "\n" + Q.up_query(query_of(case), inst)
-            + "\nresult = list(q.evaluate())   # expected: [o for o in D if <condition>(o)], same order, by identity")
+            + "\nresult = list(q.evaluate())   # expected: [o for o in D if <condition>(o)], same order, by identity"
+            "\n# and, built afresh: it = q.evaluate(); next(it, None); next(it, None); it.close(); list(q.evaluate()); "
+            "list(q.evaluate())   # expected (both): the same")
